@@ -1,5 +1,5 @@
 (* C07 - Authenticator data is laid out byte-for-byte as WebAuthn specifies. *)
-From Ctap Require Import Base Schema Wire Typed Procs Inst Tables ProcTables Finite FramingP WireP LayoutP C18P ObResponseSide.
+From Ctap Require Import Base Schema Wire Typed Procs Inst Tables ProcTables Finite FramingP WireP LayoutP C18P ObResponseSide FnShapes Shapes ObShapeAuthdata.
 Local Open Scope string_scope.
 Local Open Scope Z_scope.
 
@@ -43,9 +43,15 @@ Example c07_ex :
   = Ok (repeat 0 32 ++ [0x41] ++ [1; 2; 3; 4] ++ repeat 1 16 ++ [0; 2] ++ [7; 8] ++ [0xA0])%list.
 Proof. vm_compute. reflexivity. Qed.
 
+(* tie to the source for the hand-modelled procedural code: the bodies of these functions, as regenerated from
+   /repo now, have the shape (literals, operators, calls, control flow, constants) the model was written against *)
+Theorem c07_modelled_functions_unchanged_authdata : shapes_hold fn_shapes shapes_authdata = true.
+Proof. exact generated_shapes_authdata. Qed.
+
 Eval vm_compute in "ASSUMPTIONS c07_layout". Print Assumptions c07_layout.
 Eval vm_compute in "ASSUMPTIONS c07_counter_be". Print Assumptions c07_counter_be.
 Eval vm_compute in "ASSUMPTIONS c07_idlen_be". Print Assumptions c07_idlen_be.
 Eval vm_compute in "ASSUMPTIONS c07_generated_consts". Print Assumptions c07_generated_consts.
 Eval vm_compute in "ASSUMPTIONS c07_spec_consts". Print Assumptions c07_spec_consts.
 Eval vm_compute in "ASSUMPTIONS c07_generated_conforms". Print Assumptions c07_generated_conforms.
+Eval vm_compute in "ASSUMPTIONS c07_modelled_functions_unchanged_authdata". Print Assumptions c07_modelled_functions_unchanged_authdata.
